@@ -71,6 +71,7 @@ type FV struct {
 	unmodelled map[string]bool
 	inlined    map[string]bool
 	uncontracted map[string]bool // repo functions called without contract and not inlinable
+	globalsRead  map[string]bool // package-level variables of the repository read by the function
 	cntNames   []string
 	prevUsed   bool
 	calleesByContract map[string]bool
